@@ -100,6 +100,8 @@ class PathInfo:
                             return False
                         if v in ("Ok", "Some") and "Break" in d[2] and "Continue" not in d[2]:
                             return False
+                    if x[0] == "call" and isinstance(x[1], str) and x[1].endswith("::from_residual") and "Continue" in d[2] and "Break" not in d[2]:
+                        return False   # an error handed on by `?` (a helper's error return, read at its call site) never continues
             elif d[0] == "int":
                 c = terms.strip(d[3])
                 if c[0] == "const" and c[1] == "int":
